@@ -6,6 +6,7 @@ import time
 from .. import codec, common, container, pyavro
 
 PROP = "C15"
+THOROUGH_SEEDS = 2        # seeds per thorough run (bin/check)
 
 
 def model_check(tier):
